@@ -45,6 +45,7 @@ type Contract struct {
 	Cuts         []*CutSpec
 	LineAsserts  []*LineAssert
 	used         bool
+	extOnly      bool // created by `func+` only so far
 }
 
 // clauseMode: the VC mode a clause is written for.
@@ -125,7 +126,7 @@ type Lemma struct {
 	Mode string
 }
 
-var clauseKW = map[string]bool{"func": true, "pure": true, "requires": true, "ensures": true, "assigns": true,
+var clauseKW = map[string]bool{"func": true, "func+": true, "pure": true, "requires": true, "ensures": true, "assigns": true,
 	"panics-if": true, "loop": true, "callsite": true, "assumed": true, "mode": true, "lemma": true, "noauto": true, "wraps": true, "nullable": true, "instantiate": true, "inst": true, "cut": true, "assert": true, "assert-cut": true, "uf": true, "axiom": true}
 
 var labelRe = regexp.MustCompile(`^(requires|ensures|panics-if|callsite|pure|assert|assert-cut)\[([A-Za-z0-9_.:-]+)\]`)
@@ -210,16 +211,26 @@ func (e *Engine) loadContractFile(path string, pkg *ssa.Package) error {
 	}
 	for _, rc := range raws {
 		switch rc.kw {
-		case "func":
+		case "func", "func+":
+			// `func+ name` extends the contract of name (clauses from several files are merged); a plain
+			// `func name` may appear once
 			name := strings.TrimSpace(rc.text)
 			key := name
 			if pkg != nil {
 				key = qualify(pkg.Pkg.Path(), name)
 			}
-			if _, dup := e.contracts[key]; dup {
-				return fmt.Errorf("%s:%d: duplicate contract for %s", path, rc.line, key)
+			if old, dup := e.contracts[key]; dup {
+				if rc.kw == "func" && !old.extOnly {
+					return fmt.Errorf("%s:%d: duplicate contract for %s", path, rc.line, key)
+				}
+				if rc.kw == "func" {
+					old.extOnly = false
+					old.File, old.Line = path, rc.line
+				}
+				cur = old
+				break
 			}
-			cur = &Contract{Key: key, File: path, Line: rc.line, Loops: map[int][]*Clause{}}
+			cur = &Contract{Key: key, File: path, Line: rc.line, Loops: map[int][]*Clause{}, extOnly: rc.kw == "func+"}
 			e.contracts[key] = cur
 		case "pure":
 			m := pureRe.FindStringSubmatch(rc.text)
